@@ -95,12 +95,18 @@ impl Parser {
                 return self.parse_impl(cursor, payload);
             }
 
+            // if a previous call already consumed the beginning of this candidate frame,
+            // then the byte to skip on failure is one of those and not part of this read
+            let began_in_this_read = matches!(self.state, ParseState::FindSync1);
+
             let res = cursor.transaction(|cur| self.parse_impl(cur, payload));
 
             match res {
                 Ok(x) => return Ok(x),
                 Err(_) => {
-                    let _ = cursor.read_u8(); // advance one byte
+                    if began_in_this_read {
+                        let _ = cursor.read_u8(); // advance one byte
+                    }
                     self.reset();
                     // goto next iteration
                 }
